@@ -173,6 +173,53 @@ pub struct Wrappers {
     pub n: (u8, PhantomData<u8>, u16),
 }
 
+// Deeply nested built-in types: one root, hundreds of nested registrations.
+macro_rules! nest {
+    ($name:ident, $outer:ident, $inner:ty) => {
+        pub type $name = $outer<$outer<$outer<$outer<$outer<$outer<$outer<$outer<$inner>>>>>>>>;
+    };
+}
+nest!(O8, Option, u8);
+nest!(O64, Option, O8x7);
+pub type O8x7 = Option<Option<Option<Option<Option<Option<Option<O8>>>>>>>; // 15
+// explicit powers: 8 * 8 * ... via repeated application
+nest!(V8, Vec, u16);
+pub type V16 = Vec<Vec<Vec<Vec<Vec<Vec<Vec<Vec<V8>>>>>>>>;
+pub type V32 = Vec<Vec<Vec<Vec<Vec<Vec<Vec<Vec<Vec<Vec<Vec<Vec<Vec<Vec<Vec<Vec<V16>>>>>>>>>>>>>>>>;
+macro_rules! nest32 {
+    ($name:ident, $c:ident, $inner:ty) => {
+        pub type $name = $c<$c<$c<$c<$c<$c<$c<$c<$c<$c<$c<$c<$c<$c<$c<$c<$c<$c<$c<$c<$c<$c<$c<$c<$c<$c<$c<$c<$c<$c<$c<$c<$inner>>>>>>>>>>>>>>>>>>>>>>>>>>>>>>>>;
+    };
+}
+nest32!(V64, Vec, V32);
+nest32!(V96, Vec, V64);
+nest32!(V128, Vec, V96);
+nest32!(V160, Vec, V128);
+nest32!(P32, Option, i8);
+nest32!(P64, Option, P32);
+nest32!(P96, Option, P64);
+nest32!(P128, Option, P96);
+nest32!(P160, Option, P128);
+nest32!(P192, Option, P160);
+nest32!(P224, Option, P192);
+nest32!(P256, Option, P224);
+nest32!(P288, Option, P256);
+nest32!(P320, Option, P288);
+nest32!(P352, Option, P320);
+nest32!(P384, Option, P352);
+nest32!(P416, Option, P384);
+nest32!(P448, Option, P416);
+nest32!(P480, Option, P448);
+nest32!(P512, Option, P480);
+nest32!(P544, Option, P512);
+nest32!(P576, Option, P544);
+
+/// Corpus entries from this index on are heavy (hundreds of entries per
+/// registration) and are drawn rarely.
+pub fn heavy_from() -> usize {
+    CORPUS.iter().position(|e| e.name == "Vec^160<u16>").expect("heavy entries present")
+}
+
 pub struct CorpusEntry {
     pub name: &'static str,
     pub meta: fn() -> MetaType,
@@ -315,4 +362,7 @@ pub static CORPUS: &[CorpusEntry] = &[
     entry!("Replaced", Replaced, named("Replaced")),
     entry!("Documented", Documented, named("Documented")),
     entry!("Wrappers", Wrappers, named("Wrappers")),
+    // heavy entries last (see heavy_from)
+    entry!("Vec^160<u16>", V160, named("V160")),
+    entry!("Option^576<i8>", P576, named("P576")),
 ];
